@@ -51,7 +51,8 @@ func stampVal[T signal.SignalTypes](task, cyc, which, i int) T {
 func (h *H[T]) C11(rc *runCtx) *Violation {
 	prog, sim := rc.prog, rc.sim
 	a := drawAllocator(prog, rc.b)
-	if a.Channels*a.Capacity > 2048 { // race-build cost; large shapes are C10's business
+	medium := a.Channels*a.Capacity > 2*rc.b.MaxK && a.Channels*a.Capacity > 512 && a.Channels < 60
+	if a.Channels*a.Capacity > 2048 && !medium { // race-build cost; large shapes are C10's business
 		a.Capacity = 2048 / a.Channels
 		if a.Length > a.Capacity {
 			a.Length = a.Capacity
@@ -72,6 +73,12 @@ func (h *H[T]) C11(rc *runCtx) *Violation {
 		a = signal.Allocator{Channels: 1 + prog.Draw(2), Length: prog.Draw(2), Capacity: 1 + prog.Draw(3)}
 		maxG, maxM, class = 8+prog.Draw(9), 60+prog.Draw(140), "long"
 		sim.MaxSteps = 1 << 22
+	}
+	if class == "ordinary" && medium {
+		class = "medium"
+		if a.Channels*a.Capacity > 4096 {
+			maxG, maxM = 4, 3
+		}
 	}
 	rc.tally("run_class", class)
 	env := drawPoolEnv(rc)
